@@ -119,5 +119,23 @@ func vcyc(value, n int) int {
 //@   props C19
 //@   modifies anything
 //@   call Repeat#1 assert arg1 == pad.Int - len(initial) - ite(isNegative && useNegative, len(negativePrefix) + len(negativeSuffix), 0)
+// §3.1: each system is rendered by its own algorithm, on the (sign-stripped) value
+//@   call repeating#1 assert system == "cyclic" && arg0 == counter.Symbols && arg1 == counterValue
+//@   call nonRepeating#1 assert system == "fixed" && arg0 == counter.Symbols && arg1 == fixedNumber && arg2 == counterValue
+//@   call symbolic#1 assert system == "symbolic" && arg0 == counter.Symbols && arg1 == counterValue
+//@   call alphabetic#1 assert system == "alphabetic" && arg0 == counter.Symbols && arg1 == counterValue
+//@   call numeric#1 assert system == "numeric" && arg0 == counter.Symbols && arg1 == counterValue
+//@   call additive#1 assert system == "additive" && arg0 == counter.AdditiveSymbols && arg1 == counterValue
+// §2 step 2: the value is rendered by this style only if it lies in one of its ranges
+//@   loop 2 invariant found ==> exists(k, 0, len(counterRanges), counterRanges[k][0] <= counterValue && counterValue <= counterRanges[k][1])
+//@   loop 2 invariant !found ==> forall(k, 0, rangeindex + 1, !(counterRanges[k][0] <= counterValue && counterValue <= counterRanges[k][1]))
+// §2 step 2, range `auto`: 1..inf for alphabetic and symbolic, 0..inf for additive, unbounded otherwise
+//@   assert after counterRanges#2: len(counterRanges) == 1 && counterRanges[0][1] == 2147483647 && counterRanges[0][0] == ite(system == "alphabetic" || system == "symbolic", 1, ite(system == "additive", 0, -2147483648))
+// §2 step 3 / §3.1: the systems that "use a negative sign" are symbolic, alphabetic, numeric and additive;
+// the default negative sign is "-" with an empty suffix; the algorithms then get the absolute value
+//@   assert after useNegative#1: useNegative == (system == "symbolic" || system == "alphabetic" || system == "numeric" || system == "additive")
+//@   assert after negativeSuffix#1: counter.Negative == [2]pr.NamedString{} ==> negativePrefix == "-" && negativeSuffix == ""
+//@   assert after negativeSuffix#1: counter.Negative != [2]pr.NamedString{} ==> negativePrefix == symbol(counter.Negative[0]) && negativeSuffix == symbol(counter.Negative[1])
+//@   assert after counterValue#1: counterValue == -old(counterValue) && counterValue > 0
 //@   unclaimed call-additive@1-pre1 "needs the data invariant the additive-symbols validator establishes (weights >= 0) for every style of the map, after extends merging"
 //@   unclaimed call-numeric@1-pre1 "needs the data invariant of Validate (numeric styles have symbols) for every style of the map, after extends merging"
